@@ -60,7 +60,8 @@ def case_st(draw, tier):
         solid = {"Format": 2, "PaletteIndex": 0, "Alpha": 1.0}
         third["paints"]["c0"] = [("c0", 0), ("tri", 1)] if third["version"] == 0 else {"Format": 1, "Layers": [{"Format": 10, "Glyph": "c0", "Paint": solid}, {"Format": 10, "Glyph": "tri", "Paint": dict(solid, PaletteIndex=1)}]}
     third["interleave"] = draw(st.booleans())
-    return {"kind": "third", "third": third, "flags": flags, "space": draw(st.sampled_from([True, True, False])), "layout": draw(st.booleans()), "post3": draw(st.booleans())}
+    return {"kind": "third", "third": third, "flags": flags, "space": draw(st.sampled_from([True, True, False])), "layout": draw(st.booleans()), "post3": draw(st.booleans()),
+            "hhea_off": draw(st.sampled_from([False, False, True]))}
 
 
 @st.composite
@@ -90,7 +91,7 @@ def enumerate_cases(tier):
     rows = list(c13.fixed_rows())
     for i, third in enumerate(rows):
         third = dict(third, interleave=bool(i % 2))
-        yield {"kind": "third", "third": third, "flags": {"bitmaps": False, "colr_version": 1, "keep_glyph_names": bool(i % 2)}, "space": i != 1, "layout": i != 2, "post3": i == 3}
+        yield {"kind": "third", "third": third, "flags": {"bitmaps": False, "colr_version": 1, "keep_glyph_names": bool(i % 2)}, "space": i != 1, "layout": i != 2, "post3": i == 3, "hhea_off": i in (0, 3)}
 
 
 def cases(tier):
@@ -145,6 +146,12 @@ def make_input(case):
         addOpenTypeFeaturesFromString(font, fea)
     if case["post3"]:
         font["post"].formatType = 3
+    if case.get("hhea_off"):
+        # as in many third-party fonts: hhea and the OS/2 typo metrics disagree and USE_TYPO_METRICS is not set. Every step of
+        # the tool has to take the em box from the same place (the typo metrics), or the added table is shifted
+        font["hhea"].ascent += 130
+        font["hhea"].descent -= 70
+        font["OS/2"].fsSelection &= ~(1 << 7)
     buf = io.BytesIO()
     font.save(buf)
     return buf.getvalue(), None
